@@ -47,7 +47,7 @@ def result_fates(prog, path_re):
     for b in prog.bodies.values():
         if not path_re.search(b.name):
             continue
-        if b.rec.get('derived') or b.rec.get('exp'):
+        if b.rec.get('derived'):
             continue
         for c in b.calls:
             dt = c.t.get('dest_ty', '')
@@ -61,11 +61,20 @@ def result_fates(prog, path_re):
             d = c.dest
             if d['p']:
                 continue
-            fs = fate(b, d['l'], classify)
             if awaited:
-                bad = sorted(f for f in fs if f.startswith('swallowed'))
-                good = fs - set(bad) - {'matched'}
+                # `x.await`: the Result is moved out of Poll::Ready(..); judge the fate of that payload
+                payloads = [st['lhs']['l'] for _, st in b.stmts() if st.get('rv', {}).get('rv') == 'use'
+                            and st['rv']['op']['k'] == 'move' and st['rv']['op']['pl']['l'] == d['l']
+                            and any(p.startswith('as:Ready') for p in st['rv']['op']['pl']['p']) and not st['lhs']['p']]
+                fs = set()
+                for pl_ in payloads:
+                    fs |= fate(b, pl_, classify)
+                if not payloads:
+                    fs = {'propagated'}   # the poll result is handed on as a whole
+                bad = sorted(f for f in fs if f == 'dropped' or f.startswith('swallowed'))
+                good = fs - set(bad)
             else:
+                fs = fate(b, d['l'], classify)
                 bad = sorted(f for f in fs if f == 'dropped' or f.startswith('swallowed'))
                 good = fs - set(bad)
             out.append((b, c, et, bad, good, awaited))
